@@ -106,6 +106,19 @@ package mhprimary
 //@ func (mp *MultihashPrimary) NewIndexRemapper() (r *IndexRemapper, err error)  property C16
 //@   exclusive only called from index.Open while the store is being opened, before any goroutine is started
 
+// NewIndexRemapper (C10): the remapper's table is the list of sizes of the consecutive chunk files
+// starting at the header's first file, with the primary's file-size limit - what RemapOffset's
+// prefix sums are taken over; it establishes RemapOffset's preconditions on the table.
+//@ func (mp *MultihashPrimary) NewIndexRemapper() (r *IndexRemapper, err error)  property C10
+//@   preserves mp
+//@   fresh r
+//@   ghost var gfirst int = 0
+//@   ghost at after call mhprimary.readHeader#0: gfirst = $r0.FirstFile
+//@   assert at before call os.Stat#0: @consecutive-chunks $a0 == fname(mp.basePath, wrapu32(gfirst + len(sizes)))
+//@   ensures @table r != nil ==> err == nil && r.maxFileSize == mp.maxFileSize && r.maxFileSize > 0 && len(r.sizes) >= 1 && forall j int :: 0 <= j && j < len(r.sizes) ==> r.sizes[j] >= 0
+//@   internal ensures @first-file r != nil ==> r.firstFile == gfirst
+//@   loop 0 invariant fileNum == wrapu32(gfirst + len(sizes)) && (baseof(sizes) == 0 || fresh(sizes)) && forall j int :: 0 <= j && j < len(sizes) ==> sizes[j] >= 0
+
 // Put (C01 mechanism 3, C07): the location handed to the index is where flushBlock will write
 // the record: both use roll(cursor). The location decodes back to (file, offset), which needs
 // the record to start below the limit (roll guarantees it).
